@@ -105,7 +105,7 @@ def oracle(c, r):
         except (ioops.SpecError, ValueError, KeyError, TypeError) as e:
             return Failure(dict(sig, clause="well-formed"), f"{fmt}: the written text is not a well-formed document: {e}")
         decoded[fmt] = got
-        f = same_content(want, got, fmt, sig)
+        f = None if c.get("sliver") else same_content(want, got, fmt, sig)
         if f:
             return f
         if c["blanks"]:
@@ -212,6 +212,20 @@ def gen_main(rnd, tier):
         if rnd.random() < 0.2:
             g = ioops.negate_tg(g, rnd)         # negative times: all below 0, or on both sides of it
         c = {"op": "write", "tg": g, "blanks": rnd.random() < 0.7, "stream": "keyword" if kw else "plain"}
+        itiers = [j for j, t in enumerate(g["tiers"]) if t["k"] == "I"]
+        if itiers and g["lo"] == 0.0 and rnd.random() < 0.08:
+            # an interval tier with slivers and cracks below the default threshold 1e-8 between its entries (what a chain of
+            # edits leaves behind): which entries absorb what is C04's subject, but the file must still be a well-formed
+            # gap-free partition in every format and the four formats must agree (round 4, C02-mutH: cracks no longer filled)
+            import props.C04 as C04
+            es = C04.gen_sliver_tier(rnd, 1e-8)
+            if es:
+                j = rnd.choice(itiers)
+                top = max(g["hi"], es[-1][1] + rnd.choice([0.0, 5e-9, 1.0]))
+                g = dict(g, hi=top, tiers=[dict(t, hi=top, es=(es if i == j else t["es"])) for i, t in enumerate(g["tiers"])])
+                c.update(tg=g, blanks=True, sliver=True)
+                yield c
+                continue
         if not c["blanks"] and rnd.random() < 0.35:
             # a tier whose own span is narrower than the textgrid's (written verbatim when blank filling is off): the file
             # must carry the tier's own xmin/xmax, not the textgrid's
